@@ -68,7 +68,10 @@ func slotNil(e ast.Expr) (isSlot bool, isNil bool) {
 
 // ---------------------------------------------------------------- abstract state
 
-type heldLock struct{ class, at string }
+type heldLock struct {
+	class, at string
+	unpub     types.Object // set while the lock belongs to an object under construction held in this local: nobody else can wait for it yet
+}
 
 type state struct {
 	held   []heldLock
